@@ -12,7 +12,7 @@ use serde_json::{json, Value};
 
 pub struct C16;
 
-const FAULTS: [&str; 3] = ["close", "reset", "protocol-error"];
+const FAULTS: [&str; 4] = ["close", "fin", "reset", "protocol-error"];
 /// cut positions inside the second message of the dying peer
 const CUTS: [&str; 7] = [
     "between-messages",
@@ -161,6 +161,9 @@ async fn post_handshake(ctx: &mut Ctx, ty: &str, cut: &str, fault: &str, order: 
     e.dead.conn.feed(&second[..off]);
     match fault {
         "close" => e.dead.conn.close_full(EndKind::Eof),
+        // orderly close as a TCP socket shows it at first: reads see EOF, a write is still
+        // taken by the kernel (only a later one would fail)
+        "fin" => e.dead.conn.end_inbound(EndKind::Eof),
         "reset" => e.dead.conn.close_full(EndKind::Reset),
         _ => {
             // the peer's next bytes do not decode (unknown command), then garbage keeps coming
@@ -514,6 +517,7 @@ impl Prop for C16 {
     fn floors(&self, _tier: Tier) -> Vec<(&'static str, u64)> {
         let mut f = vec![
             ("fault/close", 500),
+            ("fault/fin", 300),
             ("fault/reset", 500),
             ("fault/protocol-error", 200),
             ("order/read-first", 400),
